@@ -7,6 +7,7 @@ import (
 	"github.com/gotid/god/lib/lang"
 	"github.com/gotid/god/lib/threading"
 	"github.com/gotid/god/lib/timex"
+	"sync"
 	"time"
 )
 
@@ -35,6 +36,7 @@ type (
 		removeChannel chan any
 		drainChannel  chan func(key, value any)
 		stopChannel   chan lang.PlaceholderType
+		stopOnce      sync.Once
 	}
 
 	timingEntry struct {
@@ -132,9 +134,11 @@ func (w *TimingWheel) SetTimer(key, value any, delay time.Duration) error {
 	}
 }
 
-// Stop 停止时间轮。
+// Stop 停止时间轮。可重复调用：停止通道只关闭一次，再次 Stop 不会 panic。
 func (w *TimingWheel) Stop() {
-	close(w.stopChannel)
+	w.stopOnce.Do(func() {
+		close(w.stopChannel)
+	})
 }
 
 func newTimingWheelWithClock(interval time.Duration, numSlots int, execute Execute, ticker timex.Ticker) (*TimingWheel, error) {
